@@ -10,6 +10,7 @@ import core
 import gen_program as G
 import parsecheck as PC
 import realcode as R
+import scancheck
 import templates
 from props import c06
 
@@ -106,6 +107,8 @@ def run(ck):
   # corpus: keyword-adjacent layout (known finding) and past failures
   for c in ck.corpus():
     texts.append(('corpus:' + c.get('key', c['_file']), c['base'], c['variant'], 'corpus'))
+  # (K) the scanner model against the real Traverse / RemoveComments on the noisy texts and random strings
+  scancheck.run(ck, [t for _, _, t, _ in texts][:ck.budget(200, 2000)], ck.budget(600, 20000), cpp='CPP' in modes)
   uniq = {}
   for kind, b, t, what in texts:
     for m in modes:
